@@ -647,7 +647,8 @@ Record link_property (lv : level) (r : role) (s : suite) (holds : list key) (h :
                 (r = RAccept -> exists c k, leaf h = Some c /\ key_of_cn s (c_cn c) = Some k /\
                                             declared s c id = Some k);
   lp_nocrash : o_crash = false;
-  lp_valid : o_hs = true -> exists c, leaf h = Some c /\ (c_nb c <= 0 <= c_na c)%Z
+  lp_valid : o_hs = true -> exists c, leaf h = Some c /\ (c_nb c <= 0 <= c_na c)%Z;
+  lp_stamp_all : length o_stamp = o_disp    (* an identity was recorded for every dispatched message *)
 }.
 
 Lemma valid_now_b_spec h :
@@ -701,7 +702,7 @@ Proof.
     + intros -> e ->. simpl in *. unfold opt_key_eqb in *.
       destruct (proven_key s h) as [k|]; try discriminate.
       match goal with H : (k =? e) = true |- _ => apply Nat.eqb_eq in H; now subst end.
-    + intros k Hin. match goal with H : forallb _ o_stamp = true |- _ => rewrite forallb_forall in H; specialize (H _ Hin) end.
+    + intros k Hin. match goal with H : _ && forallb _ o_stamp = true |- _ => apply andb_true_iff in H as [_ H]; rewrite forallb_forall in H; specialize (H _ Hin) end.
       now apply holds_b_in.
     + intros Hd. match goal with H : (_ =? 0) || _ = true |- _ => apply orb_true_iff in H as [Hz|Hz] end.
       * apply Nat.eqb_eq in Hz. contradiction.
@@ -710,13 +711,15 @@ Proof.
         apply identity_matches in Hz as (k & Hk & Hdc). exists c, k. auto.
     + now apply negb_true_iff.
     + intros ->. simpl in *. now apply valid_now_b_spec.
-  - intros [H1 H2 H3 H4 H5 H6 H7].
+    + match goal with H : _ && forallb _ o_stamp = true |- _ => apply andb_true_iff in H as [H _]; now apply Nat.eqb_eq in H end.
+  - intros [H1 H2 H3 H4 H5 H6 H7 H8].
     repeat (apply app_nil_intro); apply clause_if_nil.
     + destruct o_hs; [|reflexivity]. simpl. destruct (H1 eq_refl) as (k & -> & Hin). now apply holds_b_in.
     + destruct o_hs; [|reflexivity]. simpl. apply fresh_proof_b_spec. now apply H2.
     + destruct o_hs; [|reflexivity]. simpl. destruct r as [e|]; [|reflexivity].
       rewrite (H3 eq_refl e eq_refl). simpl. apply Nat.eqb_refl.
-    + apply forallb_forall. intros k Hin. apply holds_b_in. now apply H4.
+    + apply andb_true_iff. split; [now apply Nat.eqb_eq|].
+      apply forallb_forall. intros k Hin. apply holds_b_in. now apply H4.
     + destruct (o_disp =? 0) eqn:E; [reflexivity|]. simpl. apply Nat.eqb_neq in E.
       destruct (H5 E) as [-> Hr]. simpl. destruct r as [e|]; [reflexivity|].
       destruct (Hr eq_refl) as (c & k & -> & Hk & Hd). unfold router_accepts. rewrite Hd, Hk. apply Nat.eqb_refl.
@@ -789,7 +792,7 @@ Proof.
   - (* dial *)
     apply dial_reaches_expected_fixed in Hv as (c1 & tk1 & Heq & Hke & _); [|reflexivity].
     injection Heq as <-. rewrite Hk in Hke. injection Hke as <-.
-    constructor; simpl; auto.
+    constructor; simpl; auto using repeat_length.
     + intros _. exists k. auto.
     + intros _ e [= <-]. exact Hpk.
     + intros k1 Hin1. apply in_repeat in Hin1. now subst.
@@ -798,12 +801,12 @@ Proof.
     simpl. rewrite (nokey_fixed fx s c' id eq_refl). destruct (router_accepts s c' id) eqn:Er.
     + destruct (identity_matches _ _ _ Er) as (k1 & Hk1 & Hd). rewrite Hd.
       rewrite Hk in Hk1. injection Hk1 as <-.
-      constructor; simpl; auto.
+      constructor; simpl; auto using repeat_length.
       * intros _. exists k. auto.
       * intros _ e H. discriminate.
       * intros k1 Hin1. apply in_repeat in Hin1. now subst.
       * intros _. split; [reflexivity|]. intros _. exists c', k. auto.
-    + constructor; simpl; auto.
+    + constructor; simpl; auto using repeat_length.
       * intros _. exists k. auto.
       * intros _ e H. discriminate.
       * intros k1 [].
@@ -851,7 +854,7 @@ Proof.
   destruct r as [e|].
   - apply dial_reaches_expected_fixed in Hv as (c1 & tk1 & Heq & Hke & _); [|reflexivity].
     injection Heq as <-. rewrite Hk in Hke. injection Hke as <-.
-    constructor; simpl; auto.
+    constructor; simpl; auto using repeat_length.
     + intros _. exists k. auto.
     + intros _ e [= <-]. exact Hpk.
     + intros k1 Hin1. apply in_repeat in Hin1. now subst.
@@ -859,12 +862,12 @@ Proof.
   - simpl. rewrite (nokey_fixed fx s c' id eq_refl). destruct (router_accepts s c' id) eqn:Er.
     + destruct (identity_matches _ _ _ Er) as (k1 & Hk1 & Hd). rewrite Hd.
       rewrite Hk in Hk1. injection Hk1 as <-.
-      constructor; simpl; auto.
+      constructor; simpl; auto using repeat_length.
       * intros _. exists k. auto.
       * intros _ e H. discriminate.
       * intros k1 Hin1. apply in_repeat in Hin1. now subst.
       * intros _. split; [reflexivity|]. intros _. exists c', k. auto.
-    + constructor; simpl; auto.
+    + constructor; simpl; auto using repeat_length.
       * intros _. exists k. auto.
       * intros _ e H. discriminate.
       * intros k1 [].
@@ -1025,4 +1028,31 @@ Proof.
         intros _. exists c', k. repeat split; auto; try discriminate.
         -- intros k' [].
         -- intros H; contradiction.
+Qed.
+
+(* ------------------------------------------------------------------------- *)
+(* 10. independence of the clauses for the F09-repaired rule                  *)
+
+(* On the listening side (nothing expected) every clause but the expected-key one
+   (4, vacuous there) is independent; on the dialling side the repaired
+   expected-key check needs the CN to decode, so clause 6 (CN decodes to a key)
+   is implied by clause 4 there -- witness 6 fails both -- and every other
+   clause, 4 included, still has a certificate failing it alone. *)
+Theorem each_check_independent_f09_repaired :
+  let fx := mkfixes true false true false in
+  forall i c, nth_error independence_witnesses i = Some c ->
+    (i <> 4 -> fails_only i (clause_list fx Ed25519 0 0 None c) = true) /\
+    (i <> 6 -> fails_only i (clause_list fx Ed25519 0 0 (Some 2) c) = true) /\
+    (i = 6 -> clause_list fx Ed25519 0 0 (Some 2) c =
+              [true; true; true; true; false; true; false; true; true; true; true]) /\
+    (i = 4 \/ verify fx Ed25519 0 0 None [RawOne c] <> Accept) /\
+    verify fx Ed25519 0 0 (Some 2) [RawOne c] <> Accept.
+Proof.
+  intros fx i c H.
+  do 11 (destruct i as [|i];
+         [injection H as <-;
+          repeat split; try (intros _; vm_compute; reflexivity); try (intros Hc; exfalso; now apply Hc);
+          try discriminate; try (vm_compute; discriminate);
+          try (right; vm_compute; discriminate); try (left; reflexivity)|]).
+  destruct i; discriminate.
 Qed.
